@@ -263,6 +263,12 @@ func c15CheckDecode(r *ev.Result, class string, enc, orig []byte, mustEqual bool
 		}
 		return false
 	}
+	/* Accepted: then the reference validator must find every line valid
+	(a decoder that stops reading somewhere accepts what it never saw). */
+	if wl, wo := c15FirstBad(bytes.Split(enc, []byte{'\n'})); wl >= 0 {
+		c15Viol(r, "decode-invalid-accepted/"+class, fmt.Sprintf("AppendDecode returned %d bytes and no error although line %d (offset %d) of the input is not valid uuencoded text: %q", len(got)-5, wl, wo, trunc(enc)), "decode", enc)
+		return false
+	}
 	if !bytes.HasPrefix(got, []byte("PREFX")) {
 		c15Viol(r, "decode-dst-prefix/"+class, "AppendDecode result does not extend dst", "decode", enc)
 		return false
@@ -571,6 +577,19 @@ func c15(r *ev.Result, tier string) {
 		}
 		evals.Add(3)
 		distinct.Add(3)
+	}
+
+	/* Very long lines (no encoder writes them, a file may hold them): in the
+	middle of valid text, of a valid shape or not; the decoder must locate
+	the problem, or decode all of it. */
+	for _, n := range []int{4096, 65535, 65536, 65537, 70001, 1 << 20} {
+		for _, fill := range []byte{'M', '!', 'a'} {
+			long := bytes.Repeat([]byte{fill}, n)
+			enc := append(append(append([]byte("#0V%T\n"), long...), '\n'), []byte("#0V%T\n")...)
+			c15CheckDecode(r, "long-line", enc, nil, false)
+			evals.Add(1)
+			distinct.Add(1)
+		}
 	}
 
 	/* Every length character with a data part of exactly the matching
